@@ -1,0 +1,185 @@
+//go:build verif
+
+// Verification hooks for property C31 (session tickets): thin exported wrappers
+// around unexported ticket / resumption code.  No logic of their own beyond
+// building the receiver values the wrapped functions need.
+
+package tls
+
+import (
+	"crypto"
+	"net"
+	"time"
+)
+
+// ZVC31TicketKey runs Config.ticketKeyFromBytes.
+func ZVC31TicketKey(b [32]byte) (name, aesKey, hmacKey []byte) {
+	k := (&Config{Time: func() time.Time { return time.Unix(0, 0) }}).ticketKeyFromBytes(b)
+	return k.keyName[:], k.aesKey[:], k.hmacKey[:]
+}
+
+// ZVC31Keys runs Config.ticketKeys(configForClient) and returns name/aes/hmac/created of each key.
+func ZVC31Keys(c, configForClient *Config) (out [][4][]byte, created []int64) {
+	for _, k := range c.ticketKeys(configForClient) {
+		k := k
+		out = append(out, [4][]byte{k.keyName[:], k.aesKey[:], k.hmacKey[:]})
+		created = append(created, k.created.Unix())
+	}
+	return
+}
+
+// ZVC31Conn builds a server Conn over conn whose ticketKeys come from the real
+// Config.ticketKeys path (as readClientHello does) and whose version is vers.
+func ZVC31Conn(conn net.Conn, config *Config, vers uint16) *Conn {
+	c := Server(conn, config)
+	c.ticketKeys = config.ticketKeys(nil)
+	c.vers = vers
+	c.haveVers = true
+	c.handshakeLog = new(ServerHandshake)
+	return c
+}
+
+func ZVC31Encrypt(c *Conn, state []byte) ([]byte, error) { return c.encryptTicket(state) }
+
+func ZVC31Decrypt(c *Conn, encrypted []byte) (plaintext []byte, usedOldKey bool) {
+	return c.decryptTicket(encrypted)
+}
+
+// ZVC31State mirrors sessionState.
+type ZVC31State struct {
+	Vers, CipherSuite uint16
+	CreatedAt         uint64
+	MasterSecret      []byte
+	Certificates      [][]byte
+	UsedOldKey        bool
+}
+
+func zvc31FromState(s *sessionState) *ZVC31State {
+	return &ZVC31State{s.vers, s.cipherSuite, s.createdAt, s.masterSecret, s.certificates, s.usedOldKey}
+}
+
+func ZVC31MarshalState(s *ZVC31State) []byte {
+	return (&sessionState{vers: s.Vers, cipherSuite: s.CipherSuite, createdAt: s.CreatedAt,
+		masterSecret: s.MasterSecret, certificates: s.Certificates, usedOldKey: s.UsedOldKey}).marshal()
+}
+
+func ZVC31UnmarshalState(data []byte, usedOldKey bool) (*ZVC31State, bool) {
+	s := &sessionState{usedOldKey: usedOldKey}
+	ok := s.unmarshal(data)
+	return zvc31FromState(s), ok
+}
+
+// ZVC31State13 mirrors sessionStateTLS13 (certificate = Certificate / OCSPStaple / SignedCertificateTimestamps).
+type ZVC31State13 struct {
+	CipherSuite      uint16
+	CreatedAt        uint64
+	ResumptionSecret []byte
+	Certificates     [][]byte
+	OCSPStaple       []byte
+	SCTs             [][]byte
+}
+
+func ZVC31MarshalState13(s *ZVC31State13) []byte {
+	return (&sessionStateTLS13{cipherSuite: s.CipherSuite, createdAt: s.CreatedAt, resumptionSecret: s.ResumptionSecret,
+		certificate: Certificate{Certificate: s.Certificates, OCSPStaple: s.OCSPStaple, SignedCertificateTimestamps: s.SCTs}}).marshal()
+}
+
+func ZVC31UnmarshalState13(data []byte) (*ZVC31State13, bool) {
+	s := new(sessionStateTLS13)
+	ok := s.unmarshal(data)
+	return &ZVC31State13{s.cipherSuite, s.createdAt, s.resumptionSecret, s.certificate.Certificate,
+		s.certificate.OCSPStaple, s.certificate.SignedCertificateTimestamps}, ok
+}
+
+// ZVC31Check12 runs serverHandshakeState.checkForResumption on a handshake state
+// consisting of c, a client hello carrying ticket and clientSuites, and the four
+// key-capability flags processClientHello would have set.
+func ZVC31Check12(c *Conn, ticket []byte, clientSuites []uint16, ecdheOk, ecSignOk, rsaSignOk, rsaDecryptOk bool) (resume bool, suite uint16, st *ZVC31State) {
+	hs := &serverHandshakeState{
+		c:            c,
+		clientHello:  &clientHelloMsg{vers: c.vers, cipherSuites: clientSuites, sessionTicket: ticket, ticketSupported: true},
+		hello:        new(serverHelloMsg),
+		ecdheOk:      ecdheOk,
+		ecSignOk:     ecSignOk,
+		rsaSignOk:    rsaSignOk,
+		rsaDecryptOk: rsaDecryptOk,
+	}
+	resume = hs.checkForResumption()
+	if hs.suite != nil {
+		suite = hs.suite.id
+	}
+	if hs.sessionState != nil {
+		st = zvc31FromState(hs.sessionState)
+	}
+	return
+}
+
+// ZVC31Check13 runs serverHandshakeStateTLS13.checkForResumption.  The client hello
+// offers the given PSK identities; binder i is computed exactly as a client does
+// (handshake_client.go loadSession) from clientSecrets[i] with the negotiated
+// suite; a nil clientSecrets[i] yields an all-zero binder; binders beyond
+// nBinders are dropped (to exercise the identities/binders length check).
+func ZVC31Check13(c *Conn, suiteID uint16, pskModes []uint8, labels [][]byte, clientSecrets [][]byte, nBinders int) (err error, usingPSK bool, selected uint16, didResume bool) {
+	suite := cipherSuiteTLS13ByID(suiteID)
+	hello := &clientHelloMsg{
+		vers:               VersionTLS12,
+		random:             make([]byte, 32),
+		sessionId:          make([]byte, 32),
+		cipherSuites:       []uint16{suiteID},
+		compressionMethods: []uint8{compressionNone},
+		supportedVersions:  []uint16{VersionTLS13},
+		pskModes:           pskModes,
+	}
+	for _, l := range labels {
+		hello.pskIdentities = append(hello.pskIdentities, pskIdentity{label: l})
+		hello.pskBinders = append(hello.pskBinders, make([]byte, suite.hash.Size()))
+	}
+	binders := make([][]byte, len(labels))
+	for i := range labels {
+		binders[i] = make([]byte, suite.hash.Size())
+		if clientSecrets[i] == nil {
+			continue
+		}
+		psk := suite.expandLabel(clientSecrets[i], "resumption", nil, suite.hash.Size())
+		earlySecret := suite.extract(psk, nil)
+		binderKey := suite.deriveSecret(earlySecret, resumptionBinderLabel, nil)
+		transcript := suite.hash.New()
+		transcript.Write(hello.marshalWithoutBinders())
+		binders[i] = suite.finishedHash(binderKey, transcript)
+	}
+	if len(labels) > 0 {
+		hello.updateBinders(binders)
+	}
+	if nBinders < len(hello.pskBinders) {
+		hello.pskBinders = hello.pskBinders[:nBinders]
+	}
+	hs := &serverHandshakeStateTLS13{
+		c:           c,
+		clientHello: hello,
+		hello:       new(serverHelloMsg),
+		suite:       suite,
+		transcript:  suite.hash.New(),
+	}
+	err = hs.checkForResumption()
+	return err, hs.usingPSK, hs.hello.selectedIdentity, c.didResume
+}
+
+// ZVC31SuiteTables dumps (id, flags) of implementedCipherSuites and (id, hash) of cipherSuitesTLS13,
+// and the flag constants used by serverHandshakeState.cipherSuiteOk.
+func ZVC31SuiteTables() (t12 [][2]int, t13 [][2]int, flagECDHE, flagECSign, flagTLS12 int) {
+	for _, s := range implementedCipherSuites {
+		t12 = append(t12, [2]int{int(s.id), s.flags})
+	}
+	for _, s := range cipherSuitesTLS13 {
+		t13 = append(t13, [2]int{int(s.id), int(s.hash)})
+	}
+	return t12, t13, suiteECDHE, suiteECSign, suiteTLS12
+}
+
+// ZVC31Consts returns ticketKeyNameLen, maxSessionTicketLifetime, ticketKeyLifetime, ticketKeyRotation (seconds), maxClientPSKIdentities.
+func ZVC31Consts() (nameLen int, maxLifetimeS, keyLifetimeS, keyRotationS int64, maxIdentities int) {
+	return ticketKeyNameLen, int64(maxSessionTicketLifetime / time.Second), int64(ticketKeyLifetime / time.Second),
+		int64(ticketKeyRotation / time.Second), maxClientPSKIdentities
+}
+
+var _ = crypto.SHA256
